@@ -133,11 +133,85 @@ def _qdirs(qs):
     return ''.join('%s query "%s" "%s"\n' % q for q in qs)
 
 
+# two versions of one ledger whose most common display precision differs (BTC 2 -> 8 digits, USD 2 -> 3)
+PREC1 = '''option "title" "P"
+2020-01-01 open Assets:Bank
+2020-01-01 open Assets:Coins
+2020-01-01 open Equity:Opening
+
+2020-01-02 * "fund"
+  Assets:Bank      1000.00 USD
+  Equity:Opening
+
+2020-01-03 * "coins"
+  Assets:Coins        0.25 BTC
+  Equity:Opening
+
+2020-01-04 * "coins"
+  Assets:Coins        0.50 BTC
+  Equity:Opening
+
+2020-03-01 query "coins" "SELECT account, sum(position) AS bal WHERE account ~ 'Assets' GROUP BY account ORDER BY account"
+'''
+PREC2 = PREC1 + '''
+2020-02-01 * "coins"
+  Assets:Coins        0.00412345 BTC
+  Equity:Opening
+
+2020-02-02 * "coins"
+  Assets:Coins        0.00300001 BTC
+  Equity:Opening
+
+2020-02-03 * "coins"
+  Assets:Coins        0.00087654 BTC
+  Equity:Opening
+
+2020-02-04 * "bank"
+  Assets:Bank         0.005 USD
+  Equity:Opening
+
+2020-02-05 * "bank"
+  Assets:Bank         0.125 USD
+  Equity:Opening
+
+2020-02-06 * "bank"
+  Assets:Bank         1.375 USD
+  Equity:Opening
+
+2020-03-02 query "later" "SELECT date, account, position WHERE date >= 2020-02-01"
+'''
+
 LEDGERS = {
     'A': BASE + _qdirs(QUERIES_A),
     'B': BASE,
     'C': BASE + ERRORS + _qdirs(QUERIES_C),
+    'P1': PREC1,
+    'P2': PREC2,
 }
+
+# A line of this form in a session is an instruction to the harness, not input of the shell: the session's
+# (private) ledger file is overwritten with that version.  The shell sees the new file at its next `.reload`.
+REWRITE = '@rewrite '
+RELOAD_RE = re.compile(r'^\s*\.reload(?![A-Za-z0-9_.])')
+
+
+def segments(case):
+    """[(ledger key, [shell lines])]: the world changes at the first `.reload` after a rewrite."""
+    segs = [(case['ledger'], [])]
+    pending = None
+    for l in case['lines']:
+        if l.startswith(REWRITE):
+            pending = l[len(REWRITE):]
+            continue
+        if pending is not None and RELOAD_RE.match(l):
+            segs.append((pending, []))
+            pending = None
+        segs[-1][1].append(l)
+    return segs
+
+
+def real_lines(case):
+    return [l for l in case['lines'] if not l.startswith(REWRITE)]
 
 
 def ledger_path(key):
@@ -351,12 +425,15 @@ def texts_for(world, lines):
 
 
 def session_expr(case):
-    world = World.get(case['ledger'])
-    texts = texts_for(world, case['lines'])
-    tbl = clist([fact_coq(world.fact(t)) for t in texts])
-    qs = clist([directive_coq(e) for e in world.directives])
-    return (f'session_out {tbl} {qs} {cbool(world.error_report is not None)} {cbool(bool(case.get("quiet")))} '
-            f'{state_coq(case["format"], case["numberify"])} ' + clist([cstr(l) for l in case['lines']]))
+    segs = []
+    for key, lines in segments(case):
+        world = World.get(key)
+        texts = texts_for(world, lines)
+        tbl = clist([fact_coq(world.fact(t)) for t in texts])
+        qs = clist([directive_coq(e) for e in world.directives])
+        segs.append(f'({tbl}, {qs}, {cbool(world.error_report is not None)}, ' + clist([cstr(l) for l in lines]) + ')')
+    return (f'chain_out {cbool(bool(case.get("quiet")))} {state_coq(case["format"], case["numberify"])} '
+            + clist(segs))
 
 
 # --------------------------------------------------------------------------
@@ -382,8 +459,19 @@ def canon_state(settings):
     return out
 
 
+_private = [0]
+
+
 def run_impl(case):
-    path = ledger_path(case['ledger'])
+    rewrites = any(l.startswith(REWRITE) for l in case['lines'])
+    if rewrites:
+        # a file of its own: sessions run in parallel and this one changes its ledger
+        _private[0] += 1
+        path = os.path.join(WORK, f'session_{os.getpid()}_{_private[0]}.beancount')
+        with open(path, 'w') as f:
+            f.write(LEDGERS[case['ledger']])
+    else:
+        path = ledger_path(case['ledger'])
     outfile, so, se = io.StringIO(), io.StringIO(), io.StringIO()
     saved = warnings.showwarning
     steps = []
@@ -397,6 +485,10 @@ def run_impl(case):
                 s.seek(0)
                 s.truncate()
             for line in case['lines']:
+                if line.startswith(REWRITE):
+                    with open(path, 'w') as f:
+                        f.write(LEDGERS[line[len(REWRITE):]])
+                    continue
                 exc, ret = None, None
                 try:
                     ret = sh.onecmd(line)
@@ -409,6 +501,9 @@ def run_impl(case):
                     s.truncate()
     finally:
         warnings.showwarning = saved
+        if rewrites:
+            with contextlib.suppress(OSError):
+                os.unlink(path)
     return steps
 
 
@@ -512,11 +607,18 @@ def expected_step(world, texts, mstep, same_stdout):
 
 def compare_session(case, impl_steps, model_steps):
     """-> None or (index, description)."""
-    world = World.get(case['ledger'])
-    texts = texts_for(world, case['lines'])
-    if len(impl_steps) != len(model_steps):
-        return (0, 'step count')
-    for i, (a, m) in enumerate(zip(impl_steps, model_steps)):
+    if len(impl_steps) != len(model_steps) or len(impl_steps) != len(real_lines(case)):
+        return (0, [('step count', len(impl_steps), len(model_steps))])
+    # the world (fresh connection of the harness over that version of the ledger) in effect at every line
+    where = []
+    for key, lines in segments(case):
+        world = World.get(key)
+        texts = texts_for(world, lines)
+        where.extend((world, texts) for _ in lines)
+    index = [k for k, l in enumerate(case['lines']) if not l.startswith(REWRITE)]
+    for j, (a, m) in enumerate(zip(impl_steps, model_steps)):
+        world, texts = where[j]
+        i = index[j]
         e = expected_step(world, texts, m, case.get('same_stdout'))
         diffs = []
         if a['state'] != e['state']:
